@@ -13,6 +13,12 @@ use std::{
     thread,
 };
 
+// Verification seam (off by default): under `--cfg hdwallet_verif` the name
+// `std` in this module resolves to a harness-provided facade that re-exports
+// the real `std` with simulator-controlled `thread` and `sync` modules.
+#[cfg(hdwallet_verif)]
+use crate::verif_seam::std;
+
 #[derive(Debug, Parser)]
 pub struct Options {
     /// The number of words for the mnemonic phrase.
